@@ -415,6 +415,18 @@ fn gen_msg_c07(rng: &mut Rng, tier: Tier) -> msg::MsgScn {
             s.cases.push(c);
         }
     }
+    // validly signed tokens whose payload text is something a JSON value cannot express
+    {
+        let texts = raw_payload_texts(s.clock_base.max(1_000_000_000) + 86400);
+        for _ in 0..4 {
+            let mut c = plain(rng.pick(&bases).clone(), rand_fmt(rng));
+            c.faults.push(Fault::RawPayload { text: rng.pick(&texts).clone(), key: key.clone(), alg: alg.clone() });
+            if rng.chance(1, 3) {
+                c.session = Some((Some("a".into()), Some("n".into())));
+            }
+            s.cases.push(c);
+        }
+    }
     // arbitrary text in the KB slot while the verifier expects key binding
     for kb in ["a.b", "a.b.c", "...", "e30.e30.e30", "e30.e30.", ".e30.", "eyJhbGciOiJFUzI1NiJ9.e30.AAAA", "eyJhbGciOiJFUzI1NiIsInR5cCI6ImtiK2p3dCJ9.eyJhdWQiOiJhIiwibm9uY2UiOiJuIn0.AAAA",
         "eyJhbGciOiJub25lIn0.e30.", "eyJhbGciOjF9.e30.AAAA", "eyJ0eXAiOiJrYitqd3QifQ.e30.AAAA", "bnVsbA.bnVsbA.bnVsbA", "W10.W10.W10", "é.é.é", "e30", "e30.e30.e30.e30"] {
@@ -677,4 +689,35 @@ pub fn execute(scn_v: &Value) -> RunReport {
     rep.add("seam.clock_reads", end.clock_reads);
     rep.sim_seconds = (end.clock_ns / 1_000_000_000 - scn.clock_base.max(1_000_000_000)).max(0) as u64;
     rep
+}
+
+/// Payload *texts* for validly signed tokens that no JSON value can express ("{P}" = the members
+/// of the original payload).
+pub fn raw_payload_texts(far: i64) -> Vec<String> {
+    vec![
+            "{{P},\"exp\":1}".into(),
+            "{\"exp\":1,{P}}".into(),
+            "{{P},\"iss\":\"https://other.example\"}".into(),
+            "{{P},\"_sd\":[]}".into(),
+            "{{P},\"_sd_alg\":\"sha-512\"}".into(),
+            "{{P},\"cnf\":null}".into(),
+            "\u{feff}{{P}}".into(),
+            "{{P}} ".into(),
+            "{{P}}{}".into(),
+            "{{P}}\u{0}".into(),
+            "[{{P}}]".into(),
+            format!("{{\"iss\":\"x\",\"exp\":{}e400}}", far),
+            format!("{{\"iss\":\"x\",\"exp\":{}.0000000000000000000000000000000000000001}}", far),
+            "{\"iss\":\"x\",\"exp\":184467440737095516160}".into(),
+            "{\"iss\":\"x\",\"exp\":-0}".into(),
+            format!("{{\"iss\":\"x\",\"exp\":{},\"d\":{}1{}}}", far, "[".repeat(200), "]".repeat(200)),
+            format!("{{\"iss\":\"x\",\"exp\":{},\"d\":{}1{}}}", far, "{\"a\":".repeat(150), "}".repeat(150)),
+            "null".into(),
+            "".into(),
+            "\"str\"".into(),
+            "{".into(),
+            "{\"iss\":\"x\",\"exp\":NaN}".into(),
+            "{\"iss\":\"\\ud800\",\"exp\":9999999999}".into(),
+            "\u{ff}\u{fe}".into(),
+    ]
 }
